@@ -380,6 +380,28 @@ pub fn run(ctx: &'static Ctx) -> (&'static str, Value, Vec<&'static str>) {
         stats.nontrivial(&w[..w.len().min(64)]);
         stats.count("structured_long_lists", 1);
     }
+    let halpha: Vec<Vec<u8>> = vec![vec![0, 0, 2, 0], vec![3, 4, 0], vec![], vec![1; 40], vec![2, 7, 2, 7, 0, 3, 0], (0..80).map(|i| [0u8, 2, 7][i % 3]).collect()];
+    let sh = history_check(
+        ctx,
+        "summarize_messages",
+        halpha.len(),
+        3,
+        |i| {
+            let msgs = cache.list(&halpha[i]);
+            match guarded(|| summarize::messages(&msgs)) {
+                Caught::Ret(s) => format!(
+                    "{:?}|{:?}|{:?}|{}",
+                    s.message_groups.iter().map(|g| (g.start_message_index, g.end_message_index, g.is_continued, g.elevation_number, g.data_types.as_ref().map(|d| { let mut v: Vec<_> = d.iter().collect(); v.sort(); format!("{:?}", v) }))).collect::<Vec<_>>(),
+                    s.earliest_collection_time,
+                    s.latest_collection_time,
+                    s.volume_coverage_patterns.len()
+                ),
+                Caught::Panic(p) => format!("panic:{}", panic_class(&p)),
+            }
+        },
+        |i| format!("list#{i}(len {})", halpha[i].len()),
+    );
+    stats = stats.merge(sh);
     let mut cov = stats.coverage(
         "stateright BFS over message words: alphabet {R1 (elev 1, REF), R1v (elev 1, REF+VEL, VOL 212), R2 (elev 2, all moments, VOL 35), S, V, O3, O18} to depth 6 (thorough 7), {R1,R2} to depth 12 (14), {R1,R2,R3n,S[,R1v]} to depth 7 (8); each symbol is a real decoded Message stamped with its position; invariant runs the real summarize::messages in every state and checks tiling, count=span, maximal-run rule, continuation flags, data-type counts, first/last azimuth and time, collection-time range, VCP set, and a split differential from non-initial states; plus 200 lists in which an elevation is resumed after k = 1..=100 intervening groups. non-trivial = >=2 reference groups",
         true,
@@ -396,6 +418,10 @@ pub fn run(ctx: &'static Ctx) -> (&'static str, Value, Vec<&'static str>) {
 }
 
 pub fn replay(ctx: &'static Ctx, case: &Value) {
+    if case["op"].as_str() == Some("history") {
+        let _ = run(ctx);
+        return;
+    }
     let w: Vec<u8> = case["word"].as_array().map(|a| a.iter().map(|x| x.as_u64().unwrap_or(0) as u8).collect()).unwrap_or_default();
     let cache = Cache::new();
     let o = check_word(ctx, &cache, &w);
